@@ -111,8 +111,8 @@ type verifC06API struct {
 	rows     []verifC06Row
 	sched    map[int][]verifC06Op
 	cap      int
-	failAt   int
-	failKind string
+	fails    map[int]string // request number -> failure kind ("" = 500); a fault sequence has several entries
+	failKind string         // kind of the failure being served
 	nreq     int
 	trace    []string
 	budget   int  // more collections requests than this = the scan is not terminating
@@ -280,8 +280,9 @@ func (api *verifC06API) RoundTrip(req *http.Request) (*http.Response, error) {
 	order := strings.Replace(form.Get("order"), " ", "", -1)
 	api.trace = append(api.trace, fmt.Sprintf("q:%s:%s:%s:%s:%s", form.Get("count"), form.Get("limit"), order, fstr, flags))
 	cut := false
-	if k == api.failAt {
-		switch api.failKind {
+	if kind, failing := api.fails[k]; failing {
+		api.failKind = kind
+		switch kind {
 		case "n":
 			return nil, errors.New("verif: injected transport error")
 		case "j":
@@ -443,7 +444,7 @@ func verifC06Page(f []string) string {
 	if err1 != nil || err2 != nil {
 		return "bad-op"
 	}
-	api := &verifC06API{sched: map[int][]verifC06Op{}, cap: cp, failAt: -1}
+	api := &verifC06API{sched: map[int][]verifC06Op{}, cap: cp, fails: map[int]string{}}
 	verifC06LastAPI = api
 	if f[3] != "-" {
 		for _, p := range strings.Split(f[3], ",") {
@@ -497,22 +498,28 @@ func verifC06Page(f []string) string {
 		}
 	}
 	if f[5] != "-" {
-		s := f[5]
-		if i := strings.IndexByte(s, 'c'); i > 0 {
-			n, err := strconv.Atoi(s[i+1:])
-			if err != nil {
+		// one failure `<k>[kind]`, or a fault sequence `<k>[kind]+<k>[kind]+…`
+		for _, s := range strings.Split(f[5], "+") {
+			kind := ""
+			if i := strings.IndexByte(s, 'c'); i > 0 {
+				n, err := strconv.Atoi(s[i+1:])
+				if err != nil {
+					return "bad-op"
+				}
+				kind, api.cutLen, s = "c", n, s[:i]
+			} else if n := len(s); n > 0 && strings.IndexByte("njebhl", s[n-1]) >= 0 {
+				kind = s[n-1:]
+				s = s[:n-1]
+			}
+			k, err := strconv.Atoi(s)
+			if err != nil || k < 0 {
 				return "bad-op"
 			}
-			api.failKind, api.cutLen, s = "c", n, s[:i]
-		} else if n := len(s); n > 0 && strings.IndexByte("njebhl", s[n-1]) >= 0 {
-			api.failKind = s[n-1:]
-			s = s[:n-1]
+			if _, dup := api.fails[k]; dup {
+				return "bad-op"
+			}
+			api.fails[k] = kind
 		}
-		k, err := strconv.Atoi(s)
-		if err != nil {
-			return "bad-op"
-		}
-		api.failAt = k
 	}
 	cbFail := -1
 	if f[6] != "-" {
